@@ -624,6 +624,16 @@ pub fn check_decode(ctx: &mut Ctx, bytes: &[u8], fault: &'static str, must_rejec
         }
         Decoded::Ok(e) => {
             ctx.probe("decoder-accepted");
+            if ctx.armed("C04") {
+                // decoding is a public operation too: whatever it returns must be a well-formed envelope (C04),
+                // judged through case() alone
+                ctx.checked();
+                match guarded(|| wellformed_by_case(&e, "")) {
+                    Ok(Ok(())) => {}
+                    Ok(Err(x)) => ctx.violate("C04.decoded-structure", format!("the decoder returned an envelope that is not well-formed ({}): {} from {}", fault, x, hex(&bytes[..bytes.len().min(100)]))),
+                    Err(p) => ctx.violate_sig("C04.decoded-structure", format!("the decoder returned an envelope whose structure cannot be inspected ({}): {}", fault, p), p),
+                }
+            }
             let re = match guarded(|| e.to_cbor_data()) {
                 Ok(b) => b,
                 Err(p) => {
